@@ -1,10 +1,12 @@
 // C02 - no lost, early or duplicate wake-up of a future's waiters
 #include <scn/future.h>
+#include <scn/async.h>
 #define RUN(name, nthreads, wd, call) if (o.want(name)) { vf::report R("C02", name, o); vf::g_active_report = &R; vf::team T(nthreads, o, wd); call; T.export_hits(R); R.write(); vf::g_active_report = nullptr; }
 int main(int argc, char **argv) {
     vf::opts o(argc, argv);
     vf::install_crash_handler();
     RUN("future_mt", o.threads, true, scn::future_mt(o, R, T, o.cases, scn::FUT_C02));
     RUN("future_async_mt", o.threads, true, scn::future_async_mt(o, R, T, o.cases / 2 + 1));
+    RUN("frame_owned_parties", 1, true, scn::frame_owned_parties(o, R, o.cases));
     return 0;
 }
